@@ -28,6 +28,8 @@ relevant_verdict = WP.make_relevant(ID, also=("C02",))
 
 def build_one(exe, rng, idx):
     cfg = W.rand_cfg(rng, rewrites=rng.random() < 0.2, ttl=False)
+    for s in cfg.servers:
+        s["reqma"] = rng.random() < 0.5
     h = WH.Hist(exe, rng, cfg)
     if not h.alive:
         return h.finish(kind="cfg-crash")
@@ -40,7 +42,7 @@ def build_one(exe, rng, idx):
         k = rng.randrange(h.ncl)
         r = rng.random()
         if r < 0.35 or not h.outstanding:
-            h.rq(k, h.make_request(k, code=rng.choice([1, 1, 4]), user=rng.choice([b"a@example.org", b"a@a.b", b"x@up", b"q@x"]), extra=[], pwd=False))
+            h.rq(k, h.make_request(k, code=rng.choice([1, 1, 4, 4]), user=rng.choice([b"a@example.org", b"a@a.b", b"x@up", b"q@x"]), extra=[], pwd=False))
             continue
         ent = rng.choice(h.outstanding)
         sv = ent[0]
@@ -81,14 +83,27 @@ def build_one(exe, rng, idx):
             other = rng.choice([h.cl[ent[3]]["secret"], R.rand_secret(rng)] + [s["secret"] for s in cfg.servers if s["name"] != sv])
             h.send("reply %s %s" % (sv, h.make_reply(ent, attrs=[(18, b"ok")], secret=other).hex()))
             h.tag("bad-reply")
-        elif style < 0.7:
+        elif style < 0.62:
             b = bytearray(good)
             b[1] = rng.choice([e[1] for e in h.outstanding if e[0] == sv] + [rng.randrange(256)])
             h.send("reply %s %s" % (sv, bytes(b).hex()))
             h.tag("bad-reply")
-        elif style < 0.8:
+        elif style < 0.68:
             h.send("reply %s %s" % (sv, h.make_reply(ent, code=rng.choice([1, 4, 12, 40, 42, 0, 255]), attrs=[]).hex()))
             h.tag("bad-reply")
+        elif style < 0.84:
+            h.send("writer " + sv)
+            # a response code of the other request type (Access-* for an Accounting-Request and vice versa), correctly signed,
+            # with and without Message-Authenticator
+            acct = [e for e in h.outstanding if e[2][0] == 4 and h.srv(e[0])["reqma"]]
+            if acct and rng.random() < 0.8:
+                ent = rng.choice(acct)
+                sv = ent[0]
+                h.send("writer " + sv)
+            other_codes = [2, 3, 11] if ent[2][0] == 4 else [5]
+            h.send("reply %s %s" % (sv, h.make_reply(ent, code=rng.choice(other_codes), attrs=[(18, b"ok")], with_ma=rng.random() < 0.4).hex()))
+            h.tag("bad-reply")
+            h.tag("crossed-code")
         elif style < 0.9:
             h.send("reply %s %s" % (sv, WH.mutate(rng, good).hex()))
             h.tag("bad-reply")
@@ -104,7 +119,7 @@ def build_one(exe, rng, idx):
 
 
 def gen_run(exe, rng, tier):
-    return WH.run_parallel(exe, rng, 160 if tier == "quick" else 4000, build_one)
+    return WH.run_parallel(exe, rng, 240 if tier == "quick" else 5000, build_one)
 
 
 def gen(rng, tier):
